@@ -593,23 +593,38 @@ def _dot_scan(f):
     dot test and the cut).  The scan meets the LAST dot of the name first."""
     for b in f.blocks.values():
         c = b.get("cond")
-        if c is None or len(b["succ"]) != 2 or b.get("tk") == "SwitchStmt" or not C.loop_blocks(f, f.strip(c)):
+        if c is None or not C.loop_blocks(f, f.strip(c)):
             continue
-        # the dot test: an equality of one byte-valued operand with '.', however the byte is obtained (`*pos`, `start[i - 1]`, a local `c`)
-        cn_ = f.nodes[f.strip(c)]
-        if cn_["k"] != "BinaryOperator" or cn_.get("op") not in ("==", "!=") or len(cn_["c"]) != 2:
-            continue
-        sides = [fin.eval_expr(f, x_, {}) for x_ in cn_["c"]]
-        if sides.count(46) != 1:
-            continue
-        opnd = cn_["c"][0] if sides[1] == 46 else cn_["c"][1]
-        k = fin.key(f, opnd)
-        if not (fin.eval_expr(f, c, {k: 46}) and fin.eval_expr(f, c, {k: 47}) == 0 and fin.eval_expr(f, c, {k: 97}) == 0):
-            continue
+        dot_succ = None
+        if b.get("tk") == "SwitchStmt":
+            # `switch(*pos) { case '.': ...`: the successor labelled with the dot alone is the dot edge
+            for s_ in b["succ"]:
+                lab = f.blocks[s_].get("label") if s_ is not None else None
+                if lab is not None and f.nodes[lab]["k"] == "CaseStmt" and f.nodes[lab].get("v") == 46 and \
+                   not (f.nodes[lab]["c"] and f.nodes[f.nodes[lab]["c"][-1]]["k"] in ("CaseStmt", "DefaultStmt")):
+                    dot_succ = s_
+            if dot_succ is None:
+                continue
+        else:
+            if len(b["succ"]) != 2:
+                continue
+            # the dot test: an equality of one byte-valued operand with '.', however the byte is obtained (`*pos`, `start[i - 1]`, a local `c`)
+            cn_ = f.nodes[f.strip(c)]
+            if cn_["k"] != "BinaryOperator" or cn_.get("op") not in ("==", "!=") or len(cn_["c"]) != 2:
+                continue
+            sides = [fin.eval_expr(f, x_, {}) for x_ in cn_["c"]]
+            if sides.count(46) != 1:
+                continue
+            opnd = cn_["c"][0] if sides[1] == 46 else cn_["c"][1]
+            k = fin.key(f, opnd)
+            at = [fin.eval_expr(f, c, {k: v_}) for v_ in (46, 47, 97)]
+            if None in at or bool(at[0]) == bool(at[1]) or bool(at[1]) != bool(at[2]):
+                continue
+            dot_succ = b["succ"][0] if at[0] else b["succ"][1]
         lb = C.loop_blocks(f, f.strip(c))
         heads = [x for x in lb if any(p_ not in lb for p_ in f.preds.get(x, []))]
         # region behind the dot edge, up to the loop's back edge / exit
-        region, conds, stack = set(), [], [b["succ"][0]]
+        region, conds, stack = set(), [], [dot_succ]
         leaves, loops_back, rec = False, False, []
         while stack:
             x = stack.pop()
